@@ -772,13 +772,25 @@ def rule_ag_reg(repo, col):
               'entries stripped on read', 'padding (%s) and stripping (%s) '
               'do not agree' % (pad, strip))
     # absent type "" <-> None ; absent id placeholder
-    wt = w.attrs.get('type', [None])[0]
-    okw = wt is not None and isinstance(wt.value, ast.IfExp) and \
-        const_str(wt.value.orelse) == ''
-    okr = any(isinstance(n, ast.IfExp) and isinstance(n.test, ast.Compare)
-              and const_str(n.test.comparators[0]) == '' and
-              isinstance(n.body, ast.Constant) and n.body.value is None
-              for n in ast.walk(fr))
+    wts = [x for x in w.attrs.get('type', []) if x is not None]
+    wt = wts[0] if wts else None
+    # the writer stores '' when there is no type (conditional expression or
+    # if/else), the reader turns '' back into None
+    okw = any((isinstance(x.value, ast.IfExp) and
+               const_str(x.value.orelse) == '') or
+              const_str(x.value) == '' for x in wts)
+
+    def none_on_empty(n):
+        if not (isinstance(n, (ast.IfExp, ast.If)) and isinstance(
+                n.test, ast.Compare) and
+                const_str(n.test.comparators[0]) == ''):
+            return False
+        if isinstance(n, ast.IfExp):
+            return isinstance(n.body, ast.Constant) and n.body.value is None
+        return any(isinstance(b_, ast.Assign) and isinstance(
+            b_.value, ast.Constant) and b_.value.value is None
+            for b_ in n.body)
+    okr = any(none_on_empty(n) for n in ast.walk(fr))
     col.check(okw and okr, rule, TABLE, 'Table.from_hdf5', 'absent-type',
               wt, 'absent type written as "" and read back as None',
               'absent-type sentinel: writer %s, reader %s' % (okw, okr))
